@@ -80,7 +80,13 @@ class DynamicLengthField(Field):
             if i == len(physical_value) - 1:
                 encode_state.is_end_of_pdu = orig_is_end_of_pdu
 
+            orig_cursor = encode_state.cursor_byte_position
             self.structure.encode_into_pdu(value, encode_state)
+            if encode_state.cursor_byte_position <= orig_cursor:
+                # the decoder rejects items which do not consume any data
+                odxraise(
+                    f"The items of dynamic length field {self.short_name} "
+                    f"do not consume any data", EncodeError)
         encode_state.is_end_of_pdu = orig_is_end_of_pdu
 
         # ensure the correct message size if the field is empty
